@@ -518,7 +518,7 @@ class Strftime(Op):
     shard = None
 
     def gen(self, rng, tier, boost):
-        n = (2500 if tier == "quick" else 30000) * boost
+        n = (6000 if tier == "quick" else 60000) * boost
         if self.shard:
             n = n // self.shard[1] + 1
         for _ in range(n):
@@ -603,7 +603,7 @@ class Strptime(Op):
     shard = None
 
     def gen(self, rng, tier, boost):
-        n = (2500 if tier == "quick" else 30000) * boost
+        n = (6000 if tier == "quick" else 60000) * boost
         if self.shard:
             n = n // self.shard[1] + 1
         for _ in range(n):
@@ -728,8 +728,8 @@ class RoundTrip(Op):
     shard = None
 
     def gen(self, rng, tier, boost):
-        n = (2500 if tier == "quick" else 30000) * boost
-        nunix = (220 if tier == "quick" else 2500) * boost
+        n = (6000 if tier == "quick" else 60000) * boost
+        nunix = (400 if tier == "quick" else 4000) * boost
         if self.shard:
             n = n // self.shard[1] + 1
             nunix = nunix // self.shard[1] + 1
